@@ -566,6 +566,40 @@ func c10Views(tier string) []c10View {
 	} {
 		views = append(views, mkView(fmt.Sprintf("E3/%d", i), s.lines, s.outs, s.want, true))
 	}
+	// E6: purity probes. A collection of four elements is bound once; every operator that consumes it
+	// (union / concatenation on either side, membership, count, where with each element as the kept one,
+	// where(. > k), flatten) is applied, then the bound name is read back, the operator applied again and
+	// the name read back again. The operand must not have been rewritten by the first application.
+	{
+		bound := []ex{
+			lit("SI", "{1, 2, 3, 4}", rSet(rInt(1), rInt(2), rInt(3), rInt(4))),
+			lit("SS", `{"a", "b", "c", "d"}`, rSet(rStr("a"), rStr("b"), rStr("c"), rStr("d"))),
+			lit("LS", `["x", "b", "y", "a"]`, rList(rStr("x"), rStr("b"), rStr("y"), rStr("a"))),
+			lit("LI", "[4, 1, 3, 2]", rList(rInt(4), rInt(1), rInt(3), rInt(2))),
+			lit("LLI", "[[1, 2], [3], [4, 5]]", rList(rList(rInt(1), rInt(2)), rList(rInt(3)), rList(rInt(4), rInt(5)))),
+			lit("SSI", "{{1, 2}, {3}, {4, 5}}", rSet(rSet(rInt(1), rInt(2)), rSet(rInt(3)), rSet(rInt(4), rInt(5)))),
+		}
+		small := []ex{pool[1], pool[2], pool[3], lit("I", "4", rInt(4)), pool[5], pool[6], lit("S", `"x"`, rStr("x")), lit("S", `"y"`, rStr("y")), lit("S", `"c"`, rStr("c")),
+			pool[10], pool[13], pool[11], pool[14]}
+		n := 0
+		for _, b := range bound {
+			env := c10Env()
+			v, _ := b.Eval(env)
+			env["v1"] = v
+			for _, e := range ops(append(append([]ex{}, small...), nameRef(b.T, "v1"))) {
+				if !strings.Contains(e.Src, "(v1)") {
+					continue
+				}
+				r, ok := e.Eval(env)
+				if !ok {
+					continue
+				}
+				views = append(views, mkView(fmt.Sprintf("E6/%d", n), []string{"let v1 = " + b.Src, "o0 = " + e.Src, "o1 = v1", "o2 = " + e.Src, "o3 = v1"},
+					[]string{"o0", "o1", "o2", "o3"}, []string{r.canon(), v.canon(), r.canon(), v.canon()}, true))
+				n++
+			}
+		}
+	}
 	// E4: nested transforms over list / set / map with each result type
 	for i, s := range []shadow{
 		{[]string{"o0 = [1, 2, 2] -> <sequence of int> (x:", "  v = x * 2", ")"}, []string{"o0"}, []string{"[(v:2),(v:4),(v:4)]"}},
